@@ -216,11 +216,16 @@ def main(ctx):
     return ctx.finish(replayer=lambda ob: replay(ctx, ob))
 
 
+_EXE = {}
+
+
 def replay(ctx, ob):
     """evaluate the real C++ helpers natively at the counter-model and compare with finite differences"""
     mech = os.path.join(REPO, "SimTKcommon/Mechanics/src")
-    exe = native_build(ctx, "c28_replay", os.path.join(VERIF, "replay/c28_replay.cpp"), libs=True,
-                       extra_srcs=[os.path.join(mech, x) for x in ("Rotation.cpp", "Quaternion.cpp", "CoordinateAxis.cpp")])
+    if 'exe' not in _EXE:
+        _EXE['exe'] = native_build(ctx, "c28_replay", os.path.join(VERIF, "replay/c28_replay.cpp"), libs=True,
+                           extra_srcs=[os.path.join(mech, x) for x in ("Rotation.cpp", "Quaternion.cpp", "CoordinateAxis.cpp")])
+    exe = _EXE['exe']
     m = ob.cex or {}
     def num(k, default):
         v = m.get(k)
